@@ -18,7 +18,11 @@ namespace occa {
     variable_t::variable_t(const vartype_t &vartype_,
                            identifierToken *source_) :
         vartype(vartype_),
-        source((identifierToken*) token_t::clone(source_)) {}
+        // Unnamed variables get an empty identifier (as the other constructors do)
+        // instead of a NULL source
+        source(source_
+               ? (identifierToken*) source_->clone()
+               : new identifierToken(vartype_.origin(), "")) {}
 
     variable_t::variable_t(const variable_t &other) :
         vartype(other.vartype),
